@@ -13,6 +13,7 @@ CONSTANTS
   MCScopes <- ScopesTop
   MCRoutes <- RoutesSix
   MCExits <- Both
+  MCIos <- IoBoth
   Emitting = TRUE
 INVARIANT PContained
 INVARIANT PZeroIff
